@@ -145,7 +145,9 @@ class Run:
         pre = str(s.check())
         live = dead = 0
         rets = [o for o in exits if o.status == "return"]
-        for o in rets[:6]:
+        for k, o in enumerate(rets[:80]):
+            if k >= 6 and live > 0:
+                break                     # (six exits sampled and one of them not provably unreachable: enough)
             s2 = z3.Solver()
             s2.set("timeout", 700)
             s2.add(*[z3.simplify(h) for h in o.pc])
